@@ -12,8 +12,8 @@ META = {
     'bounds': ['columns (small-scope core): every column of 2..3 (4 thorough) subsets over {missing, 0..2^w-2} for field widths w = 1,2,3,4 '
                '(031031, 002001, 001004, 020011), entries solver integers / missing flags; widths 7 and 10 with entries within base..base+3, base a solver integer',
                'transparency: compressed program families of vlib/families.py, 2 subsets (3 in thorough); the compressed source stream has '
-               'solver bits for minimum, 6-bit width and differences, difference widths 0..2 (quick) / 0..3 (thorough); strings 1..2 bytes over {00,41,FF}',
-               'any legal width: decoder vs reference with difference widths 0..6 on single columns',
+               'solver bits for minimum, 6-bit width and differences, difference widths 0..2 for programs of <= 2 columns and 0..1 otherwise (quick) / 0..3 (thorough); strings 1..2 bytes over {00,41,FF}',
+               'any legal width: decoder vs reference with every difference width 0..5 (quick) / 0..8 (thorough) on single columns of 1-, 3-, 4- and 12-bit fields',
                'E2 N1: nbits_for_uint(x) is the least width whose all-ones value exceeds x, for every x of up to 64 bits'],
     'assumptions': ['entries whose raw value equals the field\'s all-ones pattern are "missing" (C03\'s stated exception) and are excluded from the transparency runs',
                     'compressed data requires identical replication factors / bitmaps / new reference values in all subsets (FM-94); other streams are malformed'],
@@ -48,17 +48,19 @@ def jobs(tier, seed):
     for f in families.COMPRESSED_FAMILIES:
         st = 'alphabet' if 'str' in f['name'] else 'opaque'
         J.append(Job('transparent:n2:' + f['name'], 'harness.c05', 'h_transparent',
-                     {'family': f['name'], 'n_subsets': 2, 'max_diff_width': 3 if thorough else 2, 'max_factor': 1, 'strings': st},
+                     {'family': f['name'], 'n_subsets': 2, 'max_diff_width': 3 if thorough else (2 if len(f['ids']) <= 2 and f['name'] != 'c-onebit' else 1),
+                      'max_factor': 1, 'strings': st},
                      timeout=3000 if thorough else 900, witnesses=['transparent']))
         if thorough:
             J.append(Job('transparent:n3:' + f['name'], 'harness.c05', 'h_transparent',
                          {'family': f['name'], 'n_subsets': 3, 'max_diff_width': 2, 'max_factor': 1, 'strings': st},
                          timeout=6000, witnesses=['transparent'], core=False))
-    for name in (('c-code', 'c-onebit', 'c-num', 'c-ref') if thorough else ('c-code',)):
-        J.append(Job('anywidth:' + name, 'harness.c01', 'h_decode', {'family': name, 'compressed': True, 'n_subsets': 2, 'max_diff_width': 6},
+    for name, ids in (('code4', [20011]), ('num3', [1004]), ('scaled12', [12001]), ('onebit', [31031])):
+        J.append(Job('anywidth:' + name, 'harness.c01', 'h_decode', {'ids': ids, 'name': name, 'compressed': True, 'n_subsets': 3 if thorough else 2,
+                                                                    'max_diff_width': 8 if thorough else 5},
                      timeout=3000 if thorough else 900, witnesses=['decoded']))
     J.append(Job('canary:width-rule', 'harness.c05', 'h_column', {'element': 1004, 'n_subsets': 2}, timeout=600, max_cex=1,
-                 mutate="pybufrkit.encoder::    if binx.count('1') == len(binx):\n        nbits += 1-->>    if binx.count('1') == len(binx) and nbits > 1:\n        nbits += 1"))
+                 mutate="pybufrkit.encoder::            nbits_diff = nbits_for_uint(max_value - min_value + 1)-->>            nbits_diff = nbits_for_uint(max_value - min_value - 1)"))
     J.append(Job('canary:missing-next-to-equal', 'harness.c05', 'h_transparent', {'family': 'c-num', 'n_subsets': 2, 'max_diff_width': 2}, timeout=600, max_cex=1,
-                 mutate="pybufrkit.encoder::        all_equal = values.count(values[0]) == state.n_subsets-->>        all_equal = len(set(v for v in values if v is not None)) <= 1"))
+                 mutate="pybufrkit.encoder::        all_equal = values.count(values[0]) == state.n_subsets-->>        all_equal = (lambda ps: all(v == ps[0] for v in ps))([v for v in values if v is not None])"))
     return J
